@@ -101,7 +101,10 @@ def main(argv):
     with ctx.Pool(nproc, maxtasksperchild=8) as pool:
         for r in pool.imap_unordered(_worker, [(pid, it) for it in items]):
             results.append(r)
-            if os.environ.get('VERIF_FIRSTFAIL') and r.get('fails') and not r['item'].get('twin'):
+            if os.environ.get('VERIF_FIRSTFAIL') and r.get('fails') and not r['item'].get('twin') \
+                    and not any(all(c in json.dumps(r['item'], ensure_ascii=False)
+                                    for c in f.get('match', {}).get('contains', ['\0']))
+                                for f in load_findings() if f.get('status') == 'open'):
                 # detection runs against seeded changes: one reproduced violation is enough
                 # (the remaining items are not explored; never used by the registered commands)
                 pool.terminate()
